@@ -663,10 +663,10 @@ class Model:
 
         """
         agent_count = 0
-        agent_ids = self.agent_type_map[agent_type]
+        agent_ids = set(self.agent_type_map[agent_type])
 
-        for agent_id in agent_ids:
-            if self.agents[agent_id].state == state:
+        for agent in self.agents:
+            if agent.id in agent_ids and agent.state == state:
                 agent_count += 1
 
         return agent_count
